@@ -80,6 +80,15 @@ theorem powi_neg_eq_recip (x : TwoFloat) (n : I32) (hpos : 1 < n.v) :
   have q : ¬ (0 < (IntN.neg n).v) := by simp [IntN.neg]; omega
   simp [p, q]
 
+/-- `powi(x, −n) = powi(x, n).recip()` bit for bit, for every n ≥ 1 (in particular 0 < n ≤ i32::MAX) -/
+theorem powi_neg_eq_recip' (x : TwoFloat) (n : I32) (hpos : 0 < n.v) :
+    TwoFloat.powi x (IntN.neg n) = TwoFloat.recip (TwoFloat.powi x n) := by
+  by_cases h1 : n.v = 1
+  · have : n = (1 : I32) := by cases n; simp only at h1; subst h1; rfl
+    subst this
+    rfl
+  · exact powi_neg_eq_recip x n (by omega)
+
 /-! ### panic freedom of `powi` -/
 
 /-- `powi` never panics, for every `i32` exponent including `i32::MIN` (the loop counter is `unsigned_abs`,
